@@ -40,15 +40,17 @@ REST_NAMES = {"/v1/{name=operations/*}": ["operations/op-1", "operations/abc.def
 REST_DEFAULT_NAMES = ["projects/p/operations/abc", "x/y/z/operations/op-1"]      # api-core's default rule {name=**/operations/*}
 
 
-def strip_unqueryable(msg):
-    """repeated messages and maps cannot travel as query parameters (api-core refuses them): C04 judges that"""
+def strip_unqueryable(msg, keep=()):
+    """Keep scalars and the messages that lead to path variables; what else may travel as a query parameter is C04's
+    subject (api-core refuses repeated messages, maps, Struct ...) - here the request only has to carry the call."""
     for fd, v in list(msg.ListFields()):
         if fd.message_type is None:
             continue
-        if fd.label == fd.LABEL_REPEATED:
+        sub = [k[len(fd.name) + 1:] for k in keep if k.startswith(fd.name + ".")]
+        if sub and fd.label != fd.LABEL_REPEATED:
+            strip_unqueryable(v, sub)
+        else:
             msg.ClearField(fd.name)
-        elif not fd.message_type.full_name.startswith("google.protobuf."):
-            strip_unqueryable(v)
 
 
 def exercise(ctx):
@@ -95,7 +97,7 @@ def exercise(ctx):
                     rules = ctx.inner.get("lro_get_rules") or []
                     opname = draw(st.sampled_from(sorted({n for r in rules for n in REST_NAMES[r]}) or REST_DEFAULT_NAMES))
                     # the request has to match the method's primary binding (judged by C04; here it only carries the call)
-                    strip_unqueryable(req)
+                    strip_unqueryable(req, T.variables(m["http"]["uri"]))
                     for seg in T.parse_uri(m["http"]["uri"])[0]:
                         if seg[0] == "var":
                             set_string(req, seg[1], draw(var_value(seg[2])))
